@@ -3,185 +3,178 @@
    kept, never clamped), year_month_day_last, year_month_weekday(_last), and sys_days <->
    calendar type through the public constructors and conversion operators.
    Property theorems only (proofs in ProofsCal*.v).  Stored values: year int16, month / day /
-   weekday / index uint8; deltas are int32 counts.  [Ok v] = normal return without signed overflow. *)
+   weekday / index uint8; deltas are int32 counts.  [Ok v] = normal return without signed overflow.
+   Related statements are bundled into one theorem (a Print Assumptions costs ~0.5 s of every ./check run);
+   the comments before and after a bundled theorem describe its conjuncts in order. *)
 From Tetl Require Import Lib.Base C11.Model C11.Spec C11.ModelCal C11.SpecCal C11.Proofs C11.ProofsCal C11.ProofsCal2 C11.ProofsCal3 C11.ProofsCal4 C11.ProofsCal5 C11.ProofsCal6 C11.ProofsCalB.
 Local Open Scope Z_scope.
 
 (** * sys_days <-> year_month_day through the public API *)
 (* year_month_day{sys_days} / {local_days} is the Gregorian date (day-by-day walker) of every supported day *)
-Theorem C11_ymd_from_sys_days : forall z, day_lo <= z <= day_hi -> ymd_from_days_m z = Ok (greg z).
-Proof. exact ymd_from_days_ok. Qed.
-Print Assumptions C11_ymd_from_sys_days.
+Theorem C11_sys_days_conversions :
+  (forall z, day_lo <= z <= day_hi -> ymd_from_days_m z = Ok (greg z))
+  /\
+  ((forall y m d, -32768 <= y <= 32767 -> 1 <= m <= 12 -> 0 <= d <= 255 ->
+      ymd_to_days_m y m d = Ok (days_spec y m d))
+    /\
+    (forall y m d, -32768 <= y <= 32767 -> 1 <= m <= 12 -> 0 <= d <= 255 ->
+      exists z1, ymd_to_days_m y m 1 = Ok z1 /\ ymd_to_days_m y m d = Ok (z1 + (d - 1))))
+  /\
+  ((forall z, day_lo <= z <= day_hi ->
+      let '(y, m, d) := greg z in days_spec y m d = z)
+    /\
+    (forall y m d, -32767 <= y <= 32767 -> date_exists y m d = true ->
+      day_lo <= days_spec y m d <= day_hi /\ greg (days_spec y m d) = (y, m, d)))
+  /\
+  (forall z, day_lo <= z <= day_hi -> let '(y, m, d) := greg z in ymd_ok_m y m d = true).
+Proof. exact (conj (ymd_from_days_ok) (conj ((conj ymd_to_days_ok (ymd_to_days_any))) (conj ((conj greg_days (days_greg))) ((civil_ok))))). Qed.
+Print Assumptions C11_sys_days_conversions.
 
 (* operator sys_days is the textbook day count for EVERY stored day value 0..255 of an ok month,
    all int16 years: in particular sys_days{y/m/1} + (d - 1) for dates that do not exist *)
-Theorem C11_ymd_to_sys_days_all :
-  (forall y m d, -32768 <= y <= 32767 -> 1 <= m <= 12 -> 0 <= d <= 255 ->
-    ymd_to_days_m y m d = Ok (days_spec y m d))
-  /\
-  (forall y m d, -32768 <= y <= 32767 -> 1 <= m <= 12 -> 0 <= d <= 255 ->
-    exists z1, ymd_to_days_m y m 1 = Ok z1 /\ ymd_to_days_m y m d = Ok (z1 + (d - 1))).
-Proof. exact (conj ymd_to_days_ok (ymd_to_days_any)). Qed.
-Print Assumptions C11_ymd_to_sys_days_all.
 
 (* the textbook day count and the walker agree: the two specifications are one calendar *)
-Theorem C11_walker_and_textbook_agree :
-  (forall z, day_lo <= z <= day_hi ->
-    let '(y, m, d) := greg z in days_spec y m d = z)
-  /\
-  (forall y m d, -32767 <= y <= 32767 -> date_exists y m d = true ->
-    day_lo <= days_spec y m d <= day_hi /\ greg (days_spec y m d) = (y, m, d)).
-Proof. exact (conj greg_days (days_greg)). Qed.
-Print Assumptions C11_walker_and_textbook_agree.
 
 (* last-day-of-month is the length of the month measured in sys_days: from the first of the month
    to the first of the following month (year_month + months{1}); likewise the length of a year *)
-Theorem C11_month_and_year_length :
-  (forall y m, 1 <= m <= 12 ->
-    let '(y', m') := year_month_plus_spec y m 1 in days_spec y' m' 1 - days_spec y m 1 = dim y m)
+Theorem C11_sys_days_structure :
+  ((forall y m, 1 <= m <= 12 ->
+      let '(y', m') := year_month_plus_spec y m 1 in days_spec y' m' 1 - days_spec y m 1 = dim y m)
+    /\
+    (forall y, days_spec (y + 1) 1 1 - days_spec y 1 1 = 365 + (if leap y then 1 else 0)))
   /\
-  (forall y, days_spec (y + 1) 1 1 - days_spec y 1 1 = 365 + (if leap y then 1 else 0)).
-Proof. exact (conj month_length (year_length)). Qed.
-Print Assumptions C11_month_and_year_length.
+  (forall y1 m1 d1 y2 m2 d2,
+    -32768 <= y1 <= 32767 -> -32768 <= y2 <= 32767 ->
+    date_exists y1 m1 d1 = true -> date_exists y2 m2 d2 = true ->
+    exists z1 z2, ymd_to_days_m y1 m1 d1 = Ok z1 /\ ymd_to_days_m y2 m2 d2 = Ok z2
+      /\ (lex_lt (y1, m1, d1) (y2, m2, d2) <-> z1 < z2) /\ ((y1, m1, d1) = (y2, m2, d2) <-> z1 = z2)).
+Proof. exact (conj ((conj month_length (year_length))) ((ymd_to_days_order))). Qed.
+Print Assumptions C11_sys_days_structure.
 
 (* operator sys_days is an ORDER isomorphism on existing dates: sys_days compare exactly as
    (year, month, day) compare lexicographically (the library has no operator< on year_month_day:
    this is how dates are ordered), and equal day numbers mean equal dates *)
-Theorem C11_sys_days_order : forall y1 m1 d1 y2 m2 d2,
-  -32768 <= y1 <= 32767 -> -32768 <= y2 <= 32767 ->
-  date_exists y1 m1 d1 = true -> date_exists y2 m2 d2 = true ->
-  exists z1 z2, ymd_to_days_m y1 m1 d1 = Ok z1 /\ ymd_to_days_m y2 m2 d2 = Ok z2
-    /\ (lex_lt (y1, m1, d1) (y2, m2, d2) <-> z1 < z2) /\ ((y1, m1, d1) = (y2, m2, d2) <-> z1 = z2).
-Proof. exact ymd_to_days_order. Qed.
-Print Assumptions C11_sys_days_order.
 
 (** * totality of the two conversion kernels on their whole argument types (no signed overflow) *)
-Theorem C11_kernels_total :
-  (forall y m d, -32768 <= y <= 32767 -> 0 <= m <= 255 -> 0 <= d <= 255 ->
-    exists z, days_from_civil_m y m d = Some z /\ ymd_to_days_m y m d = Ok z)
+Theorem C11_kernels_total_and_calendar :
+  ((forall y m d, -32768 <= y <= 32767 -> 0 <= m <= 255 -> 0 <= d <= 255 ->
+      exists z, days_from_civil_m y m d = Some z /\ ymd_to_days_m y m d = Ok z)
+    /\
+    (forall z, -2147483648 <= z <= 2147483647 ->
+      (z <= 2146764179 -> exists y m d, civil_from_days_m z = Some (y, m, d)
+                            /\ -32768 <= y <= 32767 /\ 1 <= m <= 12 /\ 1 <= d <= 31)
+      /\ (2146764179 < z -> civil_from_days_m z = None)))
   /\
-  (forall z, -2147483648 <= z <= 2147483647 ->
-    (z <= 2146764179 -> exists y m d, civil_from_days_m z = Some (y, m, d)
-                          /\ -32768 <= y <= 32767 /\ 1 <= m <= 12 /\ 1 <= d <= 31)
-    /\ (2146764179 < z -> civil_from_days_m z = None)).
-Proof.
-  split; [|exact civil_total].
-  intros y m d Hy Hm Hd. eexists. unfold ymd_to_days_m. rewrite (days_total y m d Hy Hm Hd). split; reflexivity.
-Qed.
-Print Assumptions C11_kernels_total.
+  ((forall z, -2147483648 <= z <= 2146764179 ->
+      civil_from_days_m z = Some (let '(y, m, d) := civil_pure z in (wraps 16 y, m, d)))
+    /\
+    (civil_pure 0 = epoch /\ (forall z, civil_pure (z + 1) = next_day (civil_pure z))
+     /\ (forall z, day_lo <= z <= day_hi -> civil_pure z = greg z))).
+Proof. exact (conj (C11_kernels_total_l) (((conj civil_any_pure civil_pure_calendar)))). Qed.
+Print Assumptions C11_kernels_total_and_calendar.
 
 (* on that whole int32 domain civil_from_days is the Gregorian calendar with the year reduced to int16:
    civil_pure is the calendar extended in both directions (day 0 = 1970-01-01, the day after = next_day
    for EVERY z) and equals the walker on the supported range *)
-Theorem C11_civil_any_day :
-  (forall z, -2147483648 <= z <= 2146764179 ->
-    civil_from_days_m z = Some (let '(y, m, d) := civil_pure z in (wraps 16 y, m, d)))
-  /\
-  (civil_pure 0 = epoch /\ (forall z, civil_pure (z + 1) = next_day (civil_pure z))
-   /\ (forall z, day_lo <= z <= day_hi -> civil_pure z = greg z)).
-Proof. exact (conj civil_any_pure civil_pure_calendar). Qed.
-Print Assumptions C11_civil_any_day.
 
 (** * year_month_day +/- months, +/- years: no clamping, ok() afterwards = the date exists *)
-Theorem C11_ymd_plus_months : forall y m d dm,
-  -32767 <= y <= 32767 -> 1 <= m <= 12 -> 0 <= d <= 255 -> -2147483647 <= dm <= 2147483647 ->
-  -32767 <= fst (year_month_plus_spec y m dm) <= 32767 ->
-  ymd_plus_months_m y m d dm = Ok (ymd_plus_months_spec y m d dm)
-  /\ (let '(y', m', d') := ymd_plus_months_spec y m d dm in
-      d' = d /\ ymd_ok_m y' m' d' = date_exists y' m' d').
-Proof. exact ymd_plus_months_ok. Qed.
-Print Assumptions C11_ymd_plus_months.
-
-Theorem C11_ymd_minus_months : forall y m d dm,
-  -32767 <= y <= 32767 -> 1 <= m <= 12 -> 0 <= d <= 255 -> -2147483647 <= dm <= 2147483647 ->
-  -32767 <= fst (year_month_plus_spec y m (- dm)) <= 32767 ->
-  ymd_minus_months_m y m d dm = Ok (ymd_plus_months_spec y m d (- dm)).
-Proof. exact ymd_minus_months_ok. Qed.
-Print Assumptions C11_ymd_minus_months.
-
-Theorem C11_ymd_years :
-  (forall y m d dy,
-    -32768 <= y <= 32767 -> -2147483648 <= dy <= 2147483647 -> -32768 <= y + dy <= 32767 ->
-    ymd_plus_years_m y m d dy = Ok (ymd_plus_years_spec y m d dy))
+Theorem C11_ymd_arith :
+  (forall y m d dm,
+    -32767 <= y <= 32767 -> 1 <= m <= 12 -> 0 <= d <= 255 -> -2147483647 <= dm <= 2147483647 ->
+    -32767 <= fst (year_month_plus_spec y m dm) <= 32767 ->
+    ymd_plus_months_m y m d dm = Ok (ymd_plus_months_spec y m d dm)
+    /\ (let '(y', m', d') := ymd_plus_months_spec y m d dm in
+        d' = d /\ ymd_ok_m y' m' d' = date_exists y' m' d'))
   /\
-  (forall y m d dy,
-    -32768 <= y <= 32767 -> -2147483647 <= dy <= 2147483647 -> -32768 <= y - dy <= 32767 ->
-    ymd_minus_years_m y m d dy = Ok (ymd_plus_years_spec y m d (- dy))).
-Proof. exact (conj ymd_plus_years_ok (ymd_minus_years_ok)). Qed.
-Print Assumptions C11_ymd_years.
+  (forall y m d dm,
+    -32767 <= y <= 32767 -> 1 <= m <= 12 -> 0 <= d <= 255 -> -2147483647 <= dm <= 2147483647 ->
+    -32767 <= fst (year_month_plus_spec y m (- dm)) <= 32767 ->
+    ymd_minus_months_m y m d dm = Ok (ymd_plus_months_spec y m d (- dm)))
+  /\
+  ((forall y m d dy,
+      -32768 <= y <= 32767 -> -2147483648 <= dy <= 2147483647 -> -32768 <= y + dy <= 32767 ->
+      ymd_plus_years_m y m d dy = Ok (ymd_plus_years_spec y m d dy))
+    /\
+    (forall y m d dy,
+      -32768 <= y <= 32767 -> -2147483647 <= dy <= 2147483647 -> -32768 <= y - dy <= 32767 ->
+      ymd_minus_years_m y m d dy = Ok (ymd_plus_years_spec y m d (- dy)))).
+Proof. exact (conj (ymd_plus_months_ok) (conj (ymd_minus_months_ok) (((conj ymd_plus_years_ok (ymd_minus_years_ok)))))). Qed.
+Print Assumptions C11_ymd_arith.
 
 (** * algebraic laws *)
 (* month - month and weekday - weekday are the differences the standard defines: the unique delta in
    [0,11] resp. [0,6] that, added to the subtrahend, gives the minuend *)
-Theorem C11_diff_inverts :
-  (forall m1 m2, 1 <= m1 <= 12 -> 1 <= m2 <= 12 ->
-    0 <= month_minus_m m1 m2 <= 11 /\ month_plus_m m2 (month_minus_m m1 m2) = m1)
+Theorem C11_algebraic_laws :
+  ((forall m1 m2, 1 <= m1 <= 12 -> 1 <= m2 <= 12 ->
+      0 <= month_minus_m m1 m2 <= 11 /\ month_plus_m m2 (month_minus_m m1 m2) = m1)
+    /\
+    (forall a b, 0 <= a <= 6 -> 0 <= b <= 6 ->
+      0 <= weekday_diff_m a b <= 6 /\ weekday_plus_m b (weekday_diff_m a b) = a
+      /\ forall dd, weekday_minus_days_m (weekday_plus_m a dd) dd = a))
   /\
-  (forall a b, 0 <= a <= 6 -> 0 <= b <= 6 ->
-    0 <= weekday_diff_m a b <= 6 /\ weekday_plus_m b (weekday_diff_m a b) = a
-    /\ forall dd, weekday_minus_days_m (weekday_plus_m a dd) dd = a).
-Proof. exact (conj month_diff_inverts (C11_weekday_diff_inverts_l)). Qed.
-Print Assumptions C11_diff_inverts.
+  ((forall y m a b,
+      -32767 <= y <= 32767 -> 1 <= m <= 12 ->
+      -2147483647 <= a <= 2147483647 -> -2147483647 <= b <= 2147483647 -> -2147483647 <= a + b <= 2147483647 ->
+      -32767 <= fst (year_month_plus_spec y m a) <= 32767 ->
+      -32768 <= fst (year_month_plus_spec y m (a + b)) <= 32767 ->
+      rbind (ym_plus_months_r y m a) (fun r => ym_plus_months_r (fst r) (snd r) b) = ym_plus_months_r y m (a + b))
+    /\
+    (forall y m a,
+      -32767 <= y <= 32767 -> 1 <= m <= 12 -> -2147483647 <= a <= 2147483647 ->
+      -32767 <= fst (year_month_plus_spec y m a) <= 32767 ->
+      rbind (ym_plus_months_r y m a) (fun r => ym_minus_months_m (fst r) (snd r) a) = Ok (y, m))
+    /\
+    (forall y m k,
+      -32767 <= y <= 32767 -> 1 <= m <= 12 -> -178956970 <= k <= 178956970 -> -32768 <= y + k <= 32767 ->
+      ym_plus_months_r y m (12 * k) = ym_plus_years_m y m k)).
+Proof. exact (conj ((conj month_diff_inverts (C11_weekday_diff_inverts_l))) (((conj ym_plus_assoc (conj ym_plus_minus (ym_months_years)))))). Qed.
+Print Assumptions C11_algebraic_laws.
 
 (* adding months to a year_month is a group action: (ym + a) + b = ym + (a + b), (ym + a) - a = ym,
    ym + 12k months = ym + k years — whenever no year leaves the int16 range *)
-Theorem C11_ym_group_action :
-  (forall y m a b,
-    -32767 <= y <= 32767 -> 1 <= m <= 12 ->
-    -2147483647 <= a <= 2147483647 -> -2147483647 <= b <= 2147483647 -> -2147483647 <= a + b <= 2147483647 ->
-    -32767 <= fst (year_month_plus_spec y m a) <= 32767 ->
-    -32768 <= fst (year_month_plus_spec y m (a + b)) <= 32767 ->
-    rbind (ym_plus_months_r y m a) (fun r => ym_plus_months_r (fst r) (snd r) b) = ym_plus_months_r y m (a + b))
-  /\
-  (forall y m a,
-    -32767 <= y <= 32767 -> 1 <= m <= 12 -> -2147483647 <= a <= 2147483647 ->
-    -32767 <= fst (year_month_plus_spec y m a) <= 32767 ->
-    rbind (ym_plus_months_r y m a) (fun r => ym_minus_months_m (fst r) (snd r) a) = Ok (y, m))
-  /\
-  (forall y m k,
-    -32767 <= y <= 32767 -> 1 <= m <= 12 -> -178956970 <= k <= 178956970 -> -32768 <= y + k <= 32767 ->
-    ym_plus_months_r y m (12 * k) = ym_plus_years_m y m k).
-Proof. exact (conj ym_plus_assoc (conj ym_plus_minus (ym_months_years))). Qed.
-Print Assumptions C11_ym_group_action.
 
 (* every date the conversion from sys_days produces is ok() *)
-Theorem C11_civil_is_ok : forall z, day_lo <= z <= day_hi -> let '(y, m, d) := greg z in ymd_ok_m y m d = true.
-Proof. exact civil_ok. Qed.
-Print Assumptions C11_civil_is_ok.
 
 (** * year_month +/- years, - months (year_month + months: C11_year_month_plus) *)
-Theorem C11_ym_arith :
-  (forall y m dm,
-    -32767 <= y <= 32767 -> 1 <= m <= 12 -> -2147483647 <= dm <= 2147483647 ->
-    -32768 <= fst (year_month_plus_spec y m (- dm)) <= 32767 ->
-    ym_minus_months_m y m dm = Ok (year_month_plus_spec y m (- dm)))
+Theorem C11_year_month_field_arith :
+  ((forall y m dm,
+      -32767 <= y <= 32767 -> 1 <= m <= 12 -> -2147483647 <= dm <= 2147483647 ->
+      -32768 <= fst (year_month_plus_spec y m (- dm)) <= 32767 ->
+      ym_minus_months_m y m dm = Ok (year_month_plus_spec y m (- dm)))
+    /\
+    (forall y m dy,
+      -32768 <= y <= 32767 -> -2147483648 <= dy <= 2147483647 -> -32768 <= y + dy <= 32767 ->
+      ym_plus_years_m y m dy = Ok (y + dy, m))
+    /\
+    (forall y m dy,
+      -32768 <= y <= 32767 -> -2147483647 <= dy <= 2147483647 -> -32768 <= y - dy <= 32767 ->
+      ym_minus_years_m y m dy = Ok (y - dy, m)))
   /\
-  (forall y m dy,
-    -32768 <= y <= 32767 -> -2147483648 <= dy <= 2147483647 -> -32768 <= y + dy <= 32767 ->
-    ym_plus_years_m y m dy = Ok (y + dy, m))
+  ((forall y dy,
+      -32768 <= y <= 32767 -> -2147483647 <= dy <= 2147483647 -> -32768 <= y - dy <= 32767 ->
+      year_minus_years_m y dy = Ok (y - dy))
+    /\
+    (forall y dy,
+      -32768 <= y <= 32767 -> -2147483648 <= dy <= 2147483647 ->
+      (-32768 <= y + dy <= 32767 -> year_add_assign_m y dy = Ok (y + dy)) /\
+      (-32768 <= y - dy <= 32767 -> year_sub_assign_m y dy = Ok (y - dy)) /\
+      (y < 32767 -> year_inc_m y = y + 1) /\ (-32768 < y -> year_dec_m y = y - 1) /\
+      (-32768 < y -> year_neg_m y = - y) /\ year_ctor_m y = y /\ year_ok_m y = year_ok_spec y)
+    /\
+    (forall a b, -32768 <= a <= 32767 -> -32768 <= b <= 32767 -> year_diff_m a b = Ok (a - b)))
   /\
-  (forall y m dy,
-    -32768 <= y <= 32767 -> -2147483647 <= dy <= 2147483647 -> -32768 <= y - dy <= 32767 ->
-    ym_minus_years_m y m dy = Ok (y - dy, m)).
-Proof. exact (conj ym_minus_months_ok (conj ym_plus_years_ok (ym_minus_years_ok))). Qed.
-Print Assumptions C11_ym_arith.
+  ((forall m dm, 0 <= m <= 255 -> -2147483648 < dm <= 2147483647 ->
+      month_plus_r m dm = Ok (month_plus_spec m dm) /\ month_plus_r m dm = Ok (month_plus_m m dm))
+    /\
+    (forall m dm, 0 <= m <= 255 -> -2147483648 < dm < 2147483648 ->
+      month_minus_months_m m dm = Ok (month_minus_months_spec m dm))
+    /\
+    (forall m, 0 <= m <= 255 ->
+      month_incdec_m m = Ok (let p := month_plus_spec m 1 in let q := month_minus_months_spec m 1 in [p; p; m; p; q; q; m; q]))).
+Proof. exact (conj ((conj ym_minus_months_ok (conj ym_plus_years_ok (ym_minus_years_ok)))) (conj ((conj year_minus_years_ok (conj C11_year_compound_l (year_diff_ok)))) (((conj C11_month_plus_any_l (conj month_minus_months_ok (month_incdec_ok))))))). Qed.
+Print Assumptions C11_year_month_field_arith.
 
 (** * year: every operator is exact integer arithmetic while the result is a year *)
-Theorem C11_year_ops :
-  (forall y dy,
-    -32768 <= y <= 32767 -> -2147483647 <= dy <= 2147483647 -> -32768 <= y - dy <= 32767 ->
-    year_minus_years_m y dy = Ok (y - dy))
-  /\
-  (forall y dy,
-    -32768 <= y <= 32767 -> -2147483648 <= dy <= 2147483647 ->
-    (-32768 <= y + dy <= 32767 -> year_add_assign_m y dy = Ok (y + dy)) /\
-    (-32768 <= y - dy <= 32767 -> year_sub_assign_m y dy = Ok (y - dy)) /\
-    (y < 32767 -> year_inc_m y = y + 1) /\ (-32768 < y -> year_dec_m y = y - 1) /\
-    (-32768 < y -> year_neg_m y = - y) /\ year_ctor_m y = y /\ year_ok_m y = year_ok_spec y)
-  /\
-  (forall a b, -32768 <= a <= 32767 -> -32768 <= b <= 32767 -> year_diff_m a b = Ok (a - b)).
-Proof. exact (conj year_minus_years_ok (conj C11_year_compound_l (year_diff_ok))). Qed.
-Print Assumptions C11_year_ops.
 
 (* ==, !=, <, <=, >, >= of year / month / day are the comparisons of the stored values *)
 Theorem C11_comparisons : forall a b, cmp6_m a b = cmp6_spec a b.
@@ -191,49 +184,33 @@ Print Assumptions C11_comparisons.
 (* == of the composite calendar types is equality of all stored components *)
 Theorem C11_equality : forall (a b : Z * Z * Z * Z) (c d : Z * Z * Z) (e f : Z * Z),
   (eq4_m a b = true <-> a = b) /\ (eq3_m c d = true <-> c = d) /\ (eq2_m e f = true <-> e = f).
-Proof. intros. split; [apply eq4_ok|split; [apply eq3_ok|apply eq2_ok]]. Qed.
+Proof. exact C11_equality_l. Qed.
 Print Assumptions C11_equality.
 
 (** * month: defined for EVERY stored value 0..255 and every delta ([time.cal.month.nonmembers]) *)
-Theorem C11_month_ops :
-  (forall m dm, 0 <= m <= 255 -> -2147483648 < dm <= 2147483647 ->
-    month_plus_r m dm = Ok (month_plus_spec m dm) /\ month_plus_r m dm = Ok (month_plus_m m dm))
-  /\
-  (forall m dm, 0 <= m <= 255 -> -2147483648 < dm < 2147483648 ->
-    month_minus_months_m m dm = Ok (month_minus_months_spec m dm))
-  /\
-  (forall m, 0 <= m <= 255 ->
-    month_incdec_m m = Ok (let p := month_plus_spec m 1 in let q := month_minus_months_spec m 1 in [p; p; m; p; q; q; m; q])).
-Proof. exact (conj C11_month_plus_any_l (conj month_minus_months_ok (month_incdec_ok))). Qed.
-Print Assumptions C11_month_ops.
 
 (** * day arithmetic *)
 (* day +/- days is exact while the result is in 0..255; any other result fires the constructor's
    precondition (the operator never wraps silently) *)
-Theorem C11_day_plus_minus :
-  (forall d dd, 0 <= d <= 255 -> -2147483648 <= dd <= 2147483647 ->
-    (0 <= d + dd <= 255 -> day_plus_m d dd = Ok (d + dd)) /\
-    (~ (0 <= d + dd <= 255) -> day_plus_m d dd = Contract) /\
-    (0 <= d - dd <= 255 -> day_minus_days_m d dd = Ok (d - dd)))
+Theorem C11_day_ops :
+  ((forall d dd, 0 <= d <= 255 -> -2147483648 <= dd <= 2147483647 ->
+      (0 <= d + dd <= 255 -> day_plus_m d dd = Ok (d + dd)) /\
+      (~ (0 <= d + dd <= 255) -> day_plus_m d dd = Contract) /\
+      (0 <= d - dd <= 255 -> day_minus_days_m d dd = Ok (d - dd)))
+    /\
+    (forall v, 0 <= v <= 255 -> day_ctor_m v = Ok v /\ month_ctor_m v = Ok v))
   /\
-  (forall v, 0 <= v <= 255 -> day_ctor_m v = Ok v /\ month_ctor_m v = Ok v).
-Proof. exact (conj C11_day_plus_l (C11_day_month_ctor_l)). Qed.
-Print Assumptions C11_day_plus_minus.
+  (forall d dd, 0 <= d <= 255 ->
+    day_add_assign_m d dd = (d + dd) mod 256 /\ day_sub_assign_m d dd = (d - dd) mod 256
+    /\ day_ok_m d = day_ok_spec d)
+  /\
+  (forall d, 255 < d -> day_ctor_m d = Contract /\ month_ctor_m d = Contract).
+Proof. exact (conj ((conj C11_day_plus_l (C11_day_month_ctor_l))) (conj (C11_day_compound_l) ((day_ctor_contract)))). Qed.
+Print Assumptions C11_day_ops.
 
 (* += / -= / ++ / -- have no check and reduce modulo 256 *)
-Theorem C11_day_compound : forall d dd, 0 <= d <= 255 ->
-  day_add_assign_m d dd = (d + dd) mod 256 /\ day_sub_assign_m d dd = (d - dd) mod 256
-  /\ day_ok_m d = day_ok_spec d.
-Proof.
-  intros d dd Hd. split; [apply day_add_assign_ok; exact Hd|].
-  split; [apply day_sub_assign_ok; exact Hd|apply day_ok_spec_ok; exact Hd].
-Qed.
-Print Assumptions C11_day_compound.
 
 (* the day / month constructors reject exactly the values the stored type cannot hold *)
-Theorem C11_day_month_ctor_contract : forall d, 255 < d -> day_ctor_m d = Contract /\ month_ctor_m d = Contract.
-Proof. exact day_ctor_contract. Qed.
-Print Assumptions C11_day_month_ctor_contract.
 
 (** * ok() of the partial dates *)
 Theorem C11_partial_ok : forall y m d w idx,
@@ -247,14 +224,7 @@ Theorem C11_partial_ok : forall y m d w idx,
   ym_ok_m y m = year_ok_spec y && month_ok_spec m /\
   ymdl_ok_m y m = year_ok_spec y && month_ok_spec m /\
   ymwdl_ok_m y m w = year_ok_spec y && month_ok_spec m && weekday_ok_spec w.
-Proof.
-  intros y m d w idx Hy Hd Hw.
-  split; [apply md_ok_spec_ok; exact Hd|]. split; [apply month_ok_spec_ok|].
-  split; [apply wdi_ok_spec_ok; exact Hw|]. split; [apply weekday_ok_spec_ok; exact Hw|].
-  split; [apply mwd_ok_spec_ok; exact Hw|]. split; [apply mwdl_ok_spec_ok; exact Hw|].
-  split; [apply ym_ok_spec_ok; exact Hy|]. split; [apply ymdl_ok_spec_ok; exact Hy|].
-  apply ymwdl_ok_spec_ok; assumption.
-Qed.
+Proof. exact C11_partial_ok_l. Qed.
 Print Assumptions C11_partial_ok.
 
 (** * year_month_day_last *)
@@ -274,32 +244,27 @@ Print Assumptions C11_ymdl_all.
 (* a month outside 1..12: defined behaviour (no read past the table), day 0 *)
 
 (** * year_month_weekday *)
-Theorem C11_ymwd_ok : forall y m w idx,
-  -32768 <= y <= 32767 -> 0 <= m <= 255 -> 0 <= w <= 255 -> 0 <= idx <= 255 ->
-  ymwd_ok_m y m w idx = Ok (ymwd_exists y m w idx).
-Proof. exact ymwd_ok_spec_ok. Qed.
-Print Assumptions C11_ymwd_ok.
-
-Theorem C11_ymwd_to_sys_days : forall y m w idx,
-  -32768 <= y <= 32767 -> 1 <= m <= 12 -> 0 <= w <= 6 -> 0 <= idx <= 255 ->
-  ymwd_to_days_m y m w idx = Ok (ymwd_days_spec y m w idx).
-Proof. exact ymwd_to_days_ok. Qed.
-Print Assumptions C11_ymwd_to_sys_days.
-
-Theorem C11_ymwd_days_meaning : forall y m w idx,
-  -32767 <= y <= 32767 -> ymwd_exists y m w idx = true -> 0 <= idx ->
-  exists d, date_exists y m d = true /\ ymwd_days_spec y m w idx = days_spec y m d
-            /\ greg (days_spec y m d) = (y, m, d) /\ weekday_of (days_spec y m d) = w /\ (d - 1) / 7 + 1 = idx.
-Proof. exact ymwd_days_spec_meaning. Qed.
-Print Assumptions C11_ymwd_days_meaning.
-
-Theorem C11_ymwd_from_sys_days : forall z, day_lo <= z <= day_hi ->
-  let '(y, m, d) := greg z in
-  ymwd_from_days_m z = Ok (y, m, weekday_of z, (d - 1) / 7 + 1)
-  /\ ymwd_ok_m y m (weekday_of z) ((d - 1) / 7 + 1) = Ok true
-  /\ ymwd_to_days_m y m (weekday_of z) ((d - 1) / 7 + 1) = Ok z.
-Proof. exact ymwd_from_days_ok. Qed.
-Print Assumptions C11_ymwd_from_sys_days.
+Theorem C11_ymwd :
+  (forall y m w idx,
+    -32768 <= y <= 32767 -> 0 <= m <= 255 -> 0 <= w <= 255 -> 0 <= idx <= 255 ->
+    ymwd_ok_m y m w idx = Ok (ymwd_exists y m w idx))
+  /\
+  (forall y m w idx,
+    -32768 <= y <= 32767 -> 1 <= m <= 12 -> 0 <= w <= 6 -> 0 <= idx <= 255 ->
+    ymwd_to_days_m y m w idx = Ok (ymwd_days_spec y m w idx))
+  /\
+  (forall y m w idx,
+    -32767 <= y <= 32767 -> ymwd_exists y m w idx = true -> 0 <= idx ->
+    exists d, date_exists y m d = true /\ ymwd_days_spec y m w idx = days_spec y m d
+              /\ greg (days_spec y m d) = (y, m, d) /\ weekday_of (days_spec y m d) = w /\ (d - 1) / 7 + 1 = idx)
+  /\
+  (forall z, day_lo <= z <= day_hi ->
+    let '(y, m, d) := greg z in
+    ymwd_from_days_m z = Ok (y, m, weekday_of z, (d - 1) / 7 + 1)
+    /\ ymwd_ok_m y m (weekday_of z) ((d - 1) / 7 + 1) = Ok true
+    /\ ymwd_to_days_m y m (weekday_of z) ((d - 1) / 7 + 1) = Ok z).
+Proof. exact (conj (ymwd_ok_spec_ok) (conj (ymwd_to_days_ok) (conj (ymwd_days_spec_meaning) ((ymwd_from_days_ok))))). Qed.
+Print Assumptions C11_ymwd.
 
 (** * year_month_weekday_last *)
 Theorem C11_ymwdl_to_sys_days : forall y m w, -32767 <= y <= 32767 -> 1 <= m <= 12 -> 0 <= w <= 6 ->
